@@ -491,15 +491,18 @@ func copyPairs(fd *ast.FuncDecl) ([][2]string, error) {
 			// delegation p.mem.TakeSnapshot(): recorded as ("->", method)
 			res = append(res, [2]string{"->", exprString(call.Fun)})
 		case *ast.AssignStmt:
-			if len(v.Lhs) != 1 || len(v.Rhs) != 1 || v.Tok != token.ASSIGN {
+			if len(v.Lhs) != len(v.Rhs) || v.Tok != token.ASSIGN {
 				return nil, fmt.Errorf("unexpected assignment in %s", fd.Name.Name)
 			}
-			d, ok1 := fieldOf(v.Lhs[0])
-			s, ok2 := fieldOf(v.Rhs[0])
-			if !ok1 || !ok2 {
-				return nil, fmt.Errorf("assignment with non-field operands in %s", fd.Name.Name)
+			// `a, b = c, d` copies c to a and d to b (the right-hand sides are plain fields: no aliasing between them)
+			for i := range v.Lhs {
+				d, ok1 := fieldOf(v.Lhs[i])
+				s, ok2 := fieldOf(v.Rhs[i])
+				if !ok1 || !ok2 {
+					return nil, fmt.Errorf("assignment with non-field operands in %s", fd.Name.Name)
+				}
+				res = append(res, [2]string{d, s})
 			}
-			res = append(res, [2]string{d, s})
 		default:
 			return nil, fmt.Errorf("unexpected statement %T in %s", st, fd.Name.Name)
 		}
@@ -508,10 +511,96 @@ func copyPairs(fd *ast.FuncDecl) ([][2]string, error) {
 }
 
 // zeroedFields: fields set to zero by ClearStatistics (`r.F[i] = 0` inside a loop, or `r.F = 0`)
+// zeroingHelpers: package functions with one slice parameter whose body sets every element of it to zero
+// (`for i := range p { p[i] = 0 }`, a counting loop doing the same, or `clear(p)`)
+var zeroingHelpers = map[string]bool{}
+
+func collectZeroingHelpers(files map[string]*ast.File) {
+	for _, f := range files {
+		for _, d := range f.Decls {
+			fd, ok := d.(*ast.FuncDecl)
+			if !ok || fd.Recv != nil || fd.Body == nil || fd.Type.Params == nil || len(fd.Type.Params.List) != 1 || len(fd.Type.Params.List[0].Names) != 1 {
+				continue
+			}
+			if _, isSlice := fd.Type.Params.List[0].Type.(*ast.ArrayType); !isSlice {
+				continue
+			}
+			p := fd.Type.Params.List[0].Names[0].Name
+			if len(fd.Body.List) != 1 {
+				continue
+			}
+			if zeroesAll(fd.Body.List[0], p) {
+				zeroingHelpers[fd.Name.Name] = true
+			}
+		}
+	}
+}
+
+// zeroesAll: the statement sets every element of the slice variable `name` to zero
+func zeroesAll(st ast.Stmt, name string) bool {
+	switch v := st.(type) {
+	case *ast.ExprStmt:
+		if c, ok := v.X.(*ast.CallExpr); ok && exprString(c.Fun) == "clear" && len(c.Args) == 1 && exprString(c.Args[0]) == name {
+			return true
+		}
+	case *ast.RangeStmt:
+		// for i := range name { name[i] = 0 }
+		if exprString(v.X) != name || v.Key == nil || len(v.Body.List) != 1 {
+			return false
+		}
+		return isZeroAssign(v.Body.List[0], name, exprString(v.Key))
+	case *ast.ForStmt:
+		// for i := 0; i < len(name); i++ { name[i] = 0 }
+		init, ok := v.Init.(*ast.AssignStmt)
+		cond, ok2 := v.Cond.(*ast.BinaryExpr)
+		if !ok || !ok2 || len(init.Lhs) != 1 || len(v.Body.List) != 1 || cond.Op != token.LSS {
+			return false
+		}
+		if z, isLit := intLit(init.Rhs[0]); !isLit || z != 0 {
+			return false
+		}
+		if exprString(cond.Y) != "len("+name+")" {
+			return false
+		}
+		return isZeroAssign(v.Body.List[0], name, exprString(init.Lhs[0]))
+	}
+	return false
+}
+
+func isZeroAssign(st ast.Stmt, name, idx string) bool {
+	as, ok := st.(*ast.AssignStmt)
+	if !ok || len(as.Lhs) != 1 || len(as.Rhs) != 1 {
+		return false
+	}
+	if z, isLit := intLit(as.Rhs[0]); !isLit || z != 0 {
+		return false
+	}
+	ix, ok := as.Lhs[0].(*ast.IndexExpr)
+	return ok && exprString(ix.X) == name && exprString(ix.Index) == idx
+}
+
 func zeroedFields(fd *ast.FuncDecl) ([]string, error) {
 	res := []string{}
 	var err error
 	ast.Inspect(fd.Body, func(n ast.Node) bool {
+		// helper(x.field) with a helper that zeroes its argument
+		if call, ok := n.(*ast.CallExpr); ok && len(call.Args) == 1 {
+			if id, ok := call.Fun.(*ast.Ident); ok && zeroingHelpers[id.Name] {
+				if f, ok := fieldOf(call.Args[0]); ok {
+					res = append(res, f)
+				}
+			}
+		}
+		// for _, v := range [][]T{x.a, x.b} { <zero every element of v> }
+		if rs, ok := n.(*ast.RangeStmt); ok && rs.Value != nil && len(rs.Body.List) == 1 {
+			if cl, ok := rs.X.(*ast.CompositeLit); ok && zeroesAll(rs.Body.List[0], exprString(rs.Value)) {
+				for _, el := range cl.Elts {
+					if f, ok := fieldOf(el); ok {
+						res = append(res, f)
+					}
+				}
+			}
+		}
 		as, ok := n.(*ast.AssignStmt)
 		if !ok {
 			return true
@@ -548,6 +637,7 @@ func zeroedFields(fd *ast.FuncDecl) ([]string, error) {
 
 func doMemory(repo, outDir string) {
 	files := parseDir(filepath.Join(repo, "memory"))
+	collectZeroingHelpers(files)
 	type key struct{ typ, method string }
 	methods := map[key]*ast.FuncDecl{}
 	for _, f := range files {
